@@ -45,7 +45,10 @@ int main(int argc, char **argv)
         uint8_t *doc = (uint8_t *) malloc(x.n); memcpy(doc, x.b, x.n);
         binson_parser *p = (binson_parser *) malloc(sizeof *p); binson_state *st = (binson_state *) malloc((size_t) maxd * sizeof *st);
         memset(p, 0x5A, sizeof *p); memset(st, 0x5A, (size_t) maxd * sizeof *st); p->max_depth = (uint_fast8_t) maxd; p->state = st;
-        if (root == 'O') binson_parser_init_object(p, doc, x.n); else binson_parser_init_array(p, doc, x.n);
+        bool iok = (root == 'O') ? binson_parser_init_object(p, doc, x.n) : binson_parser_init_array(p, doc, x.n);
+        /* prior use of the parser object must not matter (to_string is verify-based) */
+        if (iok && (d % 3) == 1) { (void) binson_parser_get_name(p); }
+        if (iok && (d % 3) == 2) { if (root == 'O') binson_parser_go_into_object(p); else binson_parser_go_into_array(p); binson_parser_next(p); }
         fprintf(f, "{\"root\":\"%c\",\"maxd\":%d,\"buf\":", root, maxd); jbytes(f, doc, x.n);
         /* %f of every candidate double (every 0x46 byte followed by 8 bytes) */
         fprintf(f, ",\"fmt\":["); int nf = 0;
